@@ -14,7 +14,7 @@ use zcash_pool_migration::engine::{
 };
 use zcash_pool_migration::preparation::{PrepInput, PrepOutput, PrepTransaction, PreparationPlan};
 use zcash_pool_migration::satisfiability::{
-    advance_migration, Advance, AdvanceConfig, DuenessTargets, ReorgSettleDepth, ReplanThreshold,
+    advance_migration, Advance, AdvanceConfig, DuenessTargets, ReorgSettleDepth, ReplanThreshold, UnsatisfiableKind,
 };
 use zcash_pool_migration::scheduling::{AnchorBucketInterval, PROVABLE_ANCHOR_DEPTH};
 use zcash_pool_migration::state::{AdvanceStep, Blocker};
@@ -175,13 +175,84 @@ pub struct Env {
     pub unrecorded: [bool; N],
 }
 
+/// The per-transaction fields of a MigrationState that an event can change. Everything else (ids,
+/// kinds, dependencies, expiries, txids, nullifier caches, lock owners, the two plans, the grid and
+/// the threshold) is constant within a search and lives in the model's template.
+#[derive(Clone, Debug, PartialEq, Eq)]
+pub struct CTx {
+    pub state: MigrationTxState,
+    pub sched: BlockHeight,
+    pub boundary: Option<BlockHeight>,
+    pub mark: Option<(BlockHeight, UnsatisfiableKind)>,
+    pub report: Option<BlockHeight>,
+    /// Which bytes the stored PCZT holds: 0 = as committed, 1 = externally signed, 2 = proven.
+    pub pczt: u8,
+}
+
+/// A MigrationState in compact form: lossless relative to the model's template (verified after
+/// every transition: expanding the compact form must give back exactly the state the real code
+/// produced). The search keeps states in this form only to bound memory; every event runs on the
+/// expanded, real `MigrationState`.
+#[derive(Clone, Debug, PartialEq, Eq)]
+pub struct Compact {
+    pub status: MigrationStatus,
+    pub txs: [CTx; N],
+}
+
+pub fn pczt_bytes(tag: u8, i: usize) -> Vec<u8> {
+    vec![[0x50, 0x60, 0x70][tag as usize], i as u8]
+}
+
+pub fn to_compact(ms: &MigrationState) -> Result<Compact, String> {
+    let t = ms.transactions();
+    if t.len() != N {
+        return Err(format!("{} transactions", t.len()));
+    }
+    let one = |i: usize| -> Result<CTx, String> {
+        let x = &t[i];
+        let pczt = (0..3u8).find(|tag| pczt_bytes(*tag, i) == *x.pczt()).ok_or_else(|| format!("unknown pczt bytes {:?}", x.pczt()))?;
+        Ok(CTx { state: x.state(), sched: x.scheduled_height(), boundary: x.anchor_boundary(), mark: x.unsatisfiable(), report: x.broadcast_failure_at(), pczt })
+    };
+    Ok(Compact { status: ms.status(), txs: [one(0)?, one(1)?, one(2)?] })
+}
+
+pub fn expand(template: &MigrationState, c: &Compact) -> MigrationState {
+    let txs = template
+        .transactions()
+        .iter()
+        .enumerate()
+        .map(|(i, t)| {
+            let x = &c.txs[i];
+            MigrationTransaction::from_parts(
+                t.id(),
+                t.kind(),
+                pczt_bytes(x.pczt, i),
+                t.depends_on().clone(),
+                x.sched,
+                t.expiry_height(),
+                x.boundary,
+                t.txid(),
+                x.state,
+                t.lock_owner(),
+                x.mark,
+                t.spend_nullifiers().clone(),
+                x.report,
+            )
+        })
+        .collect();
+    MigrationState::from_parts(c.status, template.denominations().clone(), template.preparation().clone(), txs, template.anchor_bucket_interval(), template.replan_threshold())
+}
+
 #[derive(Clone)]
 pub struct Live {
-    pub ms: MigrationState,
+    pub c: Compact,
     pub env: Env,
     /// Number of events executed since the migration became terminal (0 while it is live or has
     /// just become terminal). A terminal migration is followed for TERM_FOLLOW further events.
     pub term_age: u8,
+    /// Number of events since the initial state (bookkeeping only: not part of the state key; a
+    /// breadth-first search reaches every state first at its least depth).
+    pub depth: u8,
 }
 
 /// How many events a terminal migration is followed for. Every event enabled in a terminal state
@@ -192,10 +263,10 @@ pub const TERM_FOLLOW: u8 = 2;
 #[derive(Clone)]
 pub enum St {
     Root,
-    Live(Box<Live>),
+    Live(Live),
 }
 
-pub fn initial(dag: Dag, profile: u8, k: u8) -> Live {
+pub fn initial(dag: Dag, profile: u8, k: u8) -> (MigrationState, Env) {
     let sh = shape(dag);
     let pr = &PROFILES[profile as usize];
     let digits = init_digits(k);
@@ -224,7 +295,7 @@ pub fn initial(dag: Dag, profile: u8, k: u8) -> Live {
         txs.push(MigrationTransaction::from_parts(
             tid(i),
             sh.kinds[i],
-            vec![0x50, i as u8],
+            pczt_bytes(0, i),
             sh.deps[i].iter().map(|d| tid(*d)).collect(),
             bh(pr.sched[i]),
             bh(pr.expiry[i]),
@@ -257,7 +328,7 @@ pub fn initial(dag: Dag, profile: u8, k: u8) -> Live {
     )
     .expect("crossing + buffer in range");
     let ms = MigrationState::from_parts(status, denominations, preparation_plan(dag), txs, interval(), ReplanThreshold::DEFAULT);
-    Live { ms, env, term_age: 0 }
+    (ms, env)
 }
 
 #[derive(Clone, Copy, Debug, PartialEq, Eq, Hash, Serialize, Deserialize)]
@@ -368,8 +439,9 @@ pub enum Persist {
     /// MigrationStates: status, and per transaction (lifecycle state, mark kind, failure report
     /// present, schedule shifted, anchor boundary redrawn).
     ShapeClass,
-    /// Every distinct explored MigrationState.
-    Full,
+    /// Every distinct explored MigrationState reached within this many events of the initial
+    /// state; one representative per shape class beyond.
+    FullTo(u8),
 }
 
 #[derive(Clone, Copy)]
@@ -388,6 +460,7 @@ pub struct Model<'a> {
     pub inits: Vec<u8>,
     pub opts: Opts,
     pub counters: RefCell<Counters>,
+    template: MigrationState,
     probe_memo: RefCell<HashSet<u128>>,
     /// MigrationStates (or shape classes) already saved and loaded; shared by the passes of a group.
     pub persist_seen: Option<&'a RefCell<HashSet<u128>>>,
@@ -395,7 +468,25 @@ pub struct Model<'a> {
 
 impl<'a> Model<'a> {
     pub fn new(dag: Dag, profile: u8, inits: Vec<u8>, opts: Opts, persist_seen: Option<&'a RefCell<HashSet<u128>>>) -> Self {
-        Model { dag, profile, inits, opts, counters: RefCell::new(Counters::default()), probe_memo: RefCell::new(HashSet::new()), persist_seen }
+        Model { dag, profile, inits, opts, counters: RefCell::new(Counters::default()), template: initial(dag, profile, 31).0, probe_memo: RefCell::new(HashSet::new()), persist_seen }
+    }
+
+    pub fn ms(&self, l: &Live) -> MigrationState {
+        expand(&self.template, &l.c)
+    }
+
+    /// Compact a state the real code produced, verifying that nothing is lost.
+    fn compact(&self, ms: &MigrationState) -> Result<Compact, Viol> {
+        let c = to_compact(ms).map_err(|e| Viol::new("machinery", format!("state outside the compact form: {e}")))?;
+        if expand(&self.template, &c) != *ms {
+            return Err(Viol::new("machinery", format!("the compact form loses information about {ms:?}")));
+        }
+        Ok(c)
+    }
+
+    pub fn init_live(&self, k: u8) -> Result<Live, Viol> {
+        let (ms, env) = initial(self.dag, self.profile, k);
+        Ok(Live { c: self.compact(&ms)?, env, term_age: 0, depth: 0 })
     }
 
     fn outcome(&self, name: &str) {
@@ -485,9 +576,9 @@ impl<'a> Model<'a> {
         }
     }
 
-    fn advance_menu(&self, l: &Live, out: &mut Vec<Op>) {
+    fn advance_menu(&self, ms: &MigrationState, env: &Env, out: &mut Vec<Op>) {
         for lead in [0u8, 2] {
-            let base = match self.run_advance(&l.ms, &l.env, lead, Oracle::AllOk, 1, false, false) {
+            let base = match self.run_advance(ms, env, lead, Oracle::AllOk, 1, false, false) {
                 Ok(b) => b,
                 // A panic here is re-observed (and reported) by the op itself.
                 Err(_) => {
@@ -500,7 +591,7 @@ impl<'a> Model<'a> {
             }
             // The anchor-age draw matters only when the engine consumed randomness.
             if base.rng_words > 0 {
-                if let Ok(alt) = self.run_advance(&l.ms, &l.env, lead, Oracle::AllOk, 2, false, false) {
+                if let Ok(alt) = self.run_advance(ms, env, lead, Oracle::AllOk, 2, false, false) {
                     if alt.ms != base.ms || alt.adv != base.adv {
                         for resp in Self::resps(alt.adv.step()) {
                             out.push(Op::Advance { lead, oracle: Oracle::AllOk, age: 2, resp });
@@ -529,7 +620,7 @@ impl<'a> Model<'a> {
                     vec![Oracle::NotYet(v), Oracle::Spent(v), Oracle::InputsInvalidated(v)]
                 };
                 for oracle in variants {
-                    match self.run_advance(&l.ms, &l.env, 0, oracle, 1, false, false) {
+                    match self.run_advance(ms, env, 0, oracle, 1, false, false) {
                         Ok(o) => {
                             if o.ms == base.ms && o.adv == base.adv {
                                 continue;
@@ -545,9 +636,8 @@ impl<'a> Model<'a> {
         }
     }
 
-    fn chain_ops(&self, l: &Live, out: &mut Vec<Op>) {
-        let env = &l.env;
-        let txs = l.ms.transactions();
+    fn chain_ops(&self, ms: &MigrationState, env: &Env, out: &mut Vec<Op>) {
+        let txs = ms.transactions();
         for i in 0..N {
             if env.unrecorded[i] {
                 out.push(Op::RecordLate(i as u8));
@@ -602,7 +692,8 @@ impl<'a> Model<'a> {
 
     /// The successor of `l` under `op`, with every transition invariant checked.
     pub fn apply(&self, l: &Live, op: &Op) -> Result<Live, Viol> {
-        let pre = &l.ms;
+        let pre_owned = self.ms(l);
+        let pre = &pre_owned;
         let mut env = l.env.clone();
         let mut rolled_to: Option<u32> = None;
         let post: MigrationState = match op {
@@ -726,7 +817,7 @@ impl<'a> Model<'a> {
             self.outcome(&format!("status:{:?}->{:?}", pre.status(), post.status()));
         }
         let term_age = if post.is_terminal() && pre.is_terminal() { l.term_age.saturating_add(1) } else { 0 };
-        Ok(Live { ms: post, env, term_age })
+        Ok(Live { c: self.compact(&post)?, env, term_age, depth: l.depth.saturating_add(1) })
     }
 
     fn note_engine_effects(&self, pre: &MigrationState, post: &MigrationState) {
@@ -757,17 +848,17 @@ impl<'a> Model<'a> {
     /// Bounded liveness probe: advance the tip alone (no consumer action, no mining, every oracle
     /// answer the default) up to the horizon; the run must not end in Waiting/Complete while an
     /// unmined transaction is neither reported nor waiting on something that can still move.
-    pub fn probe(&self, l: &Live) -> Result<(), Viol> {
-        if l.ms.is_terminal() {
+    pub fn probe(&self, l: &Live, ms0: &MigrationState) -> Result<(), Viol> {
+        if ms0.is_terminal() {
             return Ok(());
         }
-        let memo_key = mc_core::key128(format!("{:?}|{}|{:?}", l.ms, l.env.tip, l.env.chain).as_bytes());
+        let memo_key = mc_core::key128(format!("{:?}|{}|{:?}", l.c, l.env.tip, l.env.chain).as_bytes());
         if !self.probe_memo.borrow_mut().insert(memo_key) {
             self.counters.borrow_mut().probe_memo_hits += 1;
             return Ok(());
         }
         self.counters.borrow_mut().probe_runs += 1;
-        let mut ms = l.ms.clone();
+        let mut ms = ms0.clone();
         let mut env = l.env.clone();
         // Every height a guard of the state compares a target against.
         let guard_heights = |ms: &MigrationState| -> Vec<u32> {
@@ -1068,9 +1159,10 @@ pub fn check_lifecycle(pre: &MigrationState, post: &MigrationState, op: &Op, rol
 pub fn state_key(s: &St) -> Vec<u8> {
     match s {
         St::Root => b"root".to_vec(),
-        // Debug of MigrationState prints every field of the state (status, plans, every
-        // transaction field, grid, threshold); Env is everything else a future can depend on.
-        St::Live(l) => format!("{:?}|{:?}|{}", l.ms, l.env, l.term_age).into_bytes(),
+        // The compact form carries every field of the MigrationState an event can change (and is
+        // verified lossless against the template after every transition); Env is everything else
+        // a future can depend on.
+        St::Live(l) => format!("{:?}|{:?}|{}", l.c, l.env, l.term_age).into_bytes(),
     }
 }
 
@@ -1083,11 +1175,12 @@ impl<'a> Subject for Model<'a> {
             St::Root => self.inits.iter().map(|k| Op::Init(*k)).collect(),
             St::Live(l) => {
                 let mut out = Vec::new();
-                if l.ms.is_terminal() && l.term_age >= TERM_FOLLOW {
+                if l.c.status.is_terminal() && l.term_age >= TERM_FOLLOW {
                     return out;
                 }
-                self.advance_menu(l, &mut out);
-                self.chain_ops(l, &mut out);
+                let ms = self.ms(l);
+                self.advance_menu(&ms, &l.env, &mut out);
+                self.chain_ops(&ms, &l.env, &mut out);
                 out
             }
         }
@@ -1095,9 +1188,9 @@ impl<'a> Subject for Model<'a> {
 
     fn step(&self, s: &St, op: &Op) -> Result<Option<St>, String> {
         match (s, op) {
-            (St::Root, Op::Init(k)) => Ok(Some(St::Live(Box::new(initial(self.dag, self.profile, *k))))),
+            (St::Root, Op::Init(k)) => self.init_live(*k).map(|l| Some(St::Live(l))).map_err(|v| v.encode()),
             (St::Root, _) => Err(Viol::new("machinery", "only Init applies to the root").encode()),
-            (St::Live(l), op) => self.apply(l, op).map(|n| Some(St::Live(Box::new(n)))).map_err(|v| v.encode()),
+            (St::Live(l), op) => self.apply(l, op).map(|n| Some(St::Live(n))).map_err(|v| v.encode()),
         }
     }
 
@@ -1107,19 +1200,33 @@ impl<'a> Subject for Model<'a> {
 
     fn check(&self, s: &St) -> Result<(), String> {
         let St::Live(l) = s else { return Ok(()) };
-        if l.ms.is_terminal() {
-            self.outcome(&format!("reached-terminal:{:?}", l.ms.status()));
+        let ms = self.ms(l);
+        if ms.is_terminal() {
+            self.outcome(&format!("reached-terminal:{:?}", ms.status()));
+        }
+        // Documented (MigrationStatus::Complete: "Every crossing has been mined"; truncate_to_height
+        // reverts Complete when a demotion leaves a transaction unmined): a Complete migration holds
+        // no unmined transaction — otherwise it has ended (nothing is ever offered again) while
+        // still holding value.
+        if ms.status() == MigrationStatus::Complete {
+            if let Some(t) = ms.transactions().iter().find(|t| !is_mined(&t.state())) {
+                return Err(Viol::new(
+                    format!("liveness:complete-with-unmined:{}", state_name(&t.state())),
+                    format!("the migration is Complete (terminal: nothing is offered any more) while transaction {} is {}", u32::from(t.id()), state_name(&t.state())),
+                )
+                .encode());
+            }
         }
         if self.opts.probe {
-            self.probe(l).map_err(|v| v.encode())?;
+            self.probe(l, &ms).map_err(|v| v.encode())?;
         }
         if self.opts.persist != Persist::Off {
             let class = match self.opts.persist {
-                Persist::Full => format!("{:?}", l.ms),
+                Persist::FullTo(d) if l.depth <= d => format!("{:?}", ms),
                 _ => {
                     let pr = &PROFILES[self.profile as usize];
-                    let mut c = format!("{:?}", l.ms.status());
-                    for (i, t) in l.ms.transactions().iter().enumerate() {
+                    let mut c = format!("{:?}", ms.status());
+                    for (i, t) in ms.transactions().iter().enumerate() {
                         c.push_str(&format!(
                             "|{}{:?}{}{}{}",
                             rank(&t.state()),
@@ -1138,7 +1245,7 @@ impl<'a> Subject for Model<'a> {
             };
             if fresh {
                 self.counters.borrow_mut().persist_runs += 1;
-                super::persist::roundtrip_explored(&l.ms).map_err(|v| v.encode())?;
+                super::persist::roundtrip_explored(&ms).map_err(|v| v.encode())?;
             }
         }
         Ok(())
